@@ -52,3 +52,69 @@ Example C15_ex_history :
      (("pod_security_exemptions_total", ["create"; "pod"; ""]), 1%N)] /\
   fst (snd (run h)) = initial_store.
 Proof. vm_compute. repeat split. Qed.
+
+(** ---- the real sources (Model/Sources.v): what the library reads for a request is a function
+    of the present cluster state only; every proof lives in Proofs/SourcesFacts.v ---- *)
+From PSA Require Import Model.Sources Proofs.SourcesFacts.
+
+(** what the sources answer for a request depends only on the present entries of the
+    request's own namespace: other namespaces' entries, and anything the cluster held
+    earlier, are irrelevant *)
+Theorem C15_sources_frame : forall wi f name exp now cl cl',
+  lookup name (cl_cached_ns cl) = lookup name (cl_cached_ns cl') ->
+  lookup name (cl_live_ns cl) = lookup name (cl_live_ns cl') ->
+  cl_cached_pods cl = cl_cached_pods cl' -> cl_live_pods cl = cl_live_pods cl' ->
+  world_of wi cl f name exp now = world_of wi cl' f name exp now.
+Proof. exact C15_sources_frame_proof. Qed.
+Print Assumptions C15_sources_frame.
+
+(** the answer to a request in any history of cluster changes, fault-plan changes and
+    earlier requests is the answer a freshly built rig gives on the state present at
+    that moment ([src_op], [run_rig], [state_after], [count_serves] are defined in
+    Proofs/SourcesFacts.v) *)
+Theorem C15_sources_histories : forall c ev wi now ops1 ops2 cl f cl0 f0 r,
+  state_after cl0 f0 ops1 = (cl, f) ->
+  nth_error (run_rig c ev wi now cl0 f0 (ops1 ++ Serve r :: ops2)) (count_serves ops1)
+  = Some (fst (validate c ev r (world_of wi cl f (r_namespace r) None now))).
+Proof. exact C15_sources_histories_proof. Qed.
+Print Assumptions C15_sources_histories.
+
+(** two histories that end in the same state give the same answer to the next request *)
+Theorem C15_sources_same_state : forall c ev wi now ops1 ops1' ops2 ops2' cl0 f0 cl0' f0' r,
+  state_after cl0 f0 ops1 = state_after cl0' f0' ops1' ->
+  nth_error (run_rig c ev wi now cl0 f0 (ops1 ++ Serve r :: ops2)) (count_serves ops1)
+  = nth_error (run_rig c ev wi now cl0' f0' (ops1' ++ Serve r :: ops2')) (count_serves ops1').
+Proof. exact C15_sources_same_state_proof. Qed.
+Print Assumptions C15_sources_same_state.
+
+(** one answer per request served *)
+Theorem C15_sources_one_answer_each : forall c ev wi now ops cl f,
+  List.length (run_rig c ev wi now cl f ops) = count_serves ops.
+Proof. intros; apply run_rig_length. Qed.
+Print Assumptions C15_sources_one_answer_each.
+
+(** ---- examples ---- *)
+Definition ex15_restricted : labels := [("pod-security.kubernetes.io/enforce", "restricted")].
+Definition ex15_privileged : labels := [("pod-security.kubernetes.io/enforce", "privileged")].
+Definition ex15_cl_open : cluster := Cluster [("ns", ex15_privileged)] [("ns", ex15_privileged)] [] [].
+Definition ex15_cl_strict : cluster := Cluster [("ns", ex15_restricted); ("other", [])] [("ns", ex15_restricted)] [] [].
+(** same entries for "ns" as ex15_cl_strict, different entries elsewhere *)
+Definition ex15_cl_strict' : cluster := Cluster [("zzz", []); ("ns", ex15_restricted)] [("ns", ex15_restricted); ("b", [])] [] [].
+
+(** the frame hypotheses are satisfiable by different clusters, and the oracle is the same *)
+Example C15_sources_ex_frame :
+  ex15_cl_strict <> ex15_cl_strict' /\
+  world_of (Wiring true false) ex15_cl_strict (Faults None false) "ns" None 0
+  = world_of (Wiring true false) ex15_cl_strict' (Faults None false) "ns" None 0.
+Proof. split; [discriminate|vm_compute; reflexivity]. Qed.
+
+(** a history: allowed while the namespace is open, denied once it is restricted, a 500 while the
+    GET fails (plain client wiring), denied again afterwards - whatever came before *)
+Example C15_sources_ex_history :
+  let h := [Serve cex_req; SetCluster ex15_cl_strict; Serve cex_req; SetFaults (Faults (Some "boom") false);
+            Serve cex_req; SetFaults (Faults None false); SetCluster ex15_cl_strict'; Serve cex_req] in
+  let out := run_rig ex15_cfg cex_ev (Wiring false false) 0 ex15_cl_open (Faults None false) h in
+  map rs_allowed out = [true; false; false; false] /\
+  map rs_code out = [None; Some 403%Z; Some 500%Z; Some 403%Z] /\
+  nth_error out 3 = nth_error (run_rig ex15_cfg cex_ev (Wiring false false) 0 ex15_cl_strict' (Faults None false) [Serve cex_req]) 0.
+Proof. vm_compute. repeat split. Qed.
